@@ -100,7 +100,7 @@ pub fn run_block(p: &HistProp, seed: u64, first: u64, count: u64, tier: Tier) ->
             br.bump("nontrivial_runs", 1);
             br.distinct.push(sc.shape());
         }
-        if index < 2 && br.samples.is_empty() {
+        if br.samples.is_empty() && j.nontrivial && sc.ops.len() <= 25 && sc.subjects.iter().all(|s| s.len() < 300) {
             br.samples.push(json!({"run_index": index, "scenario": sc.to_json()}));
         }
         if let Some(v) = j.violation.take() {
